@@ -178,7 +178,7 @@ class Ctx:
                 out = os.path.join(dst, rel, os.path.relpath(root, src))
                 os.makedirs(out, exist_ok=True)
                 for fn in files:
-                    m = re.match(r'^(c\d\d|e2e)_.*_test\.go$', fn)
+                    m = re.match(r'^(c\d\d|x\d\d|e2e)_.*_test\.go$', fn)
                     if m and m.group(1) != mine and fn not in also and root == src:
                         continue
                     shutil.copy(os.path.join(root, fn), os.path.join(out, fn))
@@ -225,9 +225,11 @@ class Ctx:
         records it wrote.  A harness test itself never fails for a property
         violation (it reports through records); a non-zero exit is an infra
         error unless must_pass is False."""
-        self._nh = getattr(self, '_nh', 0) + 1
-        inp_path = os.path.join(self.work, 'in-%d.json' % self._nh)
-        out_path = os.path.join(self.work, 'out-%d.ndjson' % self._nh)
+        with self._lock:
+            self._nh = getattr(self, '_nh', 0) + 1
+            nh = self._nh
+        inp_path = os.path.join(self.work, 'in-%d.json' % nh)
+        out_path = os.path.join(self.work, 'out-%d.ndjson' % nh)
         with open(inp_path, 'w') as f:
             json.dump(inp if inp is not None else {}, f)
         e = {'VERIF_IN': inp_path, 'VERIF_OUT': out_path}
